@@ -6,7 +6,7 @@ from harness.props import common
 def run(ctx):
     ctx.rule = ("generated programs of nested function definitions, closures returned from functions (counters, curried, composed), shadowing across up to 4 levels, bounded recursion, calls mixing positional / named / default / rest / spread arguments, pipeline and method forms; every program prints a trace; non-trivial = >= 2 scopes binding the same name or a call using >= 2 binding modes; each program is run on the implementation, on a reference interpreter written from the language rules "
                 "(value + printed trace must match) and on the Lean model evaluator")
-    progcheck.run_profiles(ctx, ["scoping", "calls", "mixed"], 700 if ctx.thorough else 130)
+    progcheck.run_profiles(ctx, ["scoping", "calls", "mixed"], 2500 if ctx.thorough else 330)
     common.replay_known(ctx)
 
 
